@@ -88,6 +88,16 @@ Fixpoint first_hash (xts : list bytes) : option bytes :=
               else first_hash r
   end.
 
+(* url.ParseQuery as far as the xt values go: pairs separated by '&', empty pairs skipped, the key is
+   what precedes the first '=' *)
+Definition nonempty (p : bytes) : bool := match p with [] => false | _ => true end.
+Definition xt_value (p : bytes) : list bytes :=
+  match split_at 61 p with
+  | Some (k, v) => if bytes_eqb k (ascii_bytes "xt") then [v] else []
+  | None => []
+  end.
+Definition query_xts (q : bytes) : list bytes := flat_map xt_value (filter nonempty (split_on 38 q [])).
+
 Definition read_magnet (m : bytes) : mgres :=
   match hash_parse m with
   | Some h => MgOk h
@@ -96,12 +106,13 @@ Definition read_magnet (m : bytes) : mgres :=
     if negb (bytes_eqb (map lower sch) (ascii_bytes "magnet")) then MgNil
     else
       let q := match split_at 63 rest with Some (_, q) => q | None => [] end in
-      let pairs := filter (fun p => negb (match p with [] => true | _ => false end)) (split_on 38 q []) in
-      let xts := flat_map (fun p => match split_at 61 p with
-                                    | Some (k, v) => if bytes_eqb k (ascii_bytes "xt") then [v] else []
-                                    | None => [] end) pairs in
-      match first_hash xts with Some h => MgOk h | None => MgErr end
+      match first_hash (query_xts q) with Some h => MgOk h | None => MgErr end
   end.
+
+(* the link storrent and other clients write for a hash: lower-case hex after magnet:?xt=urn:btih: *)
+Definition hexdigit (v : N) : N := if v <? 10 then 48 + v else 87 + v.
+Definition hex_encode (h : bytes) : bytes := flat_map (fun b => [hexdigit (b / 16); hexdigit (b mod 16)]) h.
+Definition magnet_of (h params : bytes) : bytes := ascii_bytes "magnet:?xt=urn:btih:" ++ hex_encode h ++ params.
 
 (* the shapes on which net/url is specified here: letters, digits and : ? = & . / - only, and no
    path or authority part (what follows the scheme does not begin with '/') *)
